@@ -390,6 +390,19 @@ func sharedAcrossItems(p *Prog, fn *FuncInfo) []carried {
 			}
 			return nil
 		}
+		// inner: the object, or the address of something inside it (&v.a.b) — a pointer into the one object
+		inner := func(x ast.Expr) *types.Var {
+			x = ast.Unparen(x)
+			if v := cand(x); v != nil {
+				return v
+			}
+			if u, ok := x.(*ast.UnaryExpr); ok && u.Op == token.AND {
+				if root := rootIdent(u.X); root != nil && ast.Unparen(u.X) != ast.Expr(root) {
+					return cand(root)
+				}
+			}
+			return nil
+		}
 		ast.Inspect(body, func(k ast.Node) bool {
 			switch t := k.(type) {
 			case *ast.AssignStmt:
@@ -406,7 +419,7 @@ func sharedAcrossItems(p *Prog, fn *FuncInfo) []carried {
 					}
 				}
 				for _, r := range t.Rhs {
-					if v := cand(r); v != nil {
+					if v := inner(r); v != nil {
 						escapes[v] = t
 					}
 				}
@@ -416,15 +429,31 @@ func sharedAcrossItems(p *Prog, fn *FuncInfo) []carried {
 					if kv, ok := e.(*ast.KeyValueExpr); ok {
 						x = kv.Value
 					}
-					if v := cand(x); v != nil {
+					if v := inner(x); v != nil {
 						escapes[v] = t
 					}
 				}
 			case *ast.CallExpr:
 				if ac, ok := isBuiltinCall(info, t, "append"); ok {
 					for _, a := range ac.Args[1:] {
-						if v := cand(a); v != nil {
+						if v := inner(a); v != nil {
 							escapes[v] = t
+						}
+					}
+					break
+				}
+				if tv, isConv := info.Types[t.Fun]; isConv && (tv.IsType() || tv.IsBuiltin()) {
+					break
+				}
+				// handed to a callee as a pointer: the callee may fill it (client.Get(ctx, key, obj)) …
+				for _, a := range t.Args {
+					if v := cand(a); v != nil {
+						if _, isPtr := v.Type().Underlying().(*types.Pointer); isPtr {
+							writes[v] = t
+							// … and a module callee may keep a pointer into it (returns / stores &param.f)
+							if fi := p.FuncOf(Callee(info, t)); fi != nil && keepsPointerInto(fi, argIndex(t, a)) {
+								escapes[v] = t
+							}
 						}
 					}
 				}
@@ -520,4 +549,45 @@ func carriedDiag(p *Prog) {
 			fmt.Printf("carried %s %s read at %s\n", fn.Key(), f.v.Name(), p.Pos(f.read))
 		}
 	}
+}
+
+func argIndex(call *ast.CallExpr, a ast.Expr) int {
+	for i, x := range call.Args {
+		if x == a {
+			return i
+		}
+	}
+	return -1
+}
+
+// keepsPointerInto: fi returns or stores the address of something inside its pi-th parameter
+// (&param.a.b in a return value, a composite literal or an assignment).
+func keepsPointerInto(fi *FuncInfo, pi int) bool {
+	if fi.Decl.Body == nil || pi < 0 {
+		return false
+	}
+	info := fi.Info()
+	var param types.Object
+	i := 0
+	for _, f := range fi.Decl.Type.Params.List {
+		for _, nm := range f.Names {
+			if i == pi {
+				param = info.Defs[nm]
+			}
+			i++
+		}
+	}
+	if param == nil {
+		return false
+	}
+	keeps := false
+	ast.Inspect(fi.Decl.Body, func(k ast.Node) bool {
+		if u, ok := k.(*ast.UnaryExpr); ok && u.Op == token.AND {
+			if root := rootIdent(u.X); root != nil && info.ObjectOf(root) == param && ast.Unparen(u.X) != ast.Expr(root) {
+				keeps = true
+			}
+		}
+		return !keeps
+	})
+	return keeps
 }
